@@ -456,6 +456,7 @@ HandleFileDownloadRequest(rfbClientPtr cl, rfbTightClientPtr rtcp)
 		 /* This condition can come only if the file path is greater than 
 		    PATH_MAX. So sending file path length error msg back to client. 
 		 */
+		 memset(rtcp->rcft.rcfd.fName, 0, PATH_MAX);
 
     	SendFileDownloadLengthErrMsg(cl);
 	return;
@@ -728,6 +729,9 @@ HandleFileUploadRequest(rfbClientPtr cl, rfbTightClientPtr rtcp)
     	/* This may come if the path length exceeds PATH_MAX.
     	   So sending path length error to client
     	 */
+    	 /* do not leave the refused, unconverted name behind: CloseUndoneFileUpload() and
+    	    FileUpdateComplete() would unlink()/utime() it */
+    	 memset(rtcp->rcft.rcfu.fName, 0, PATH_MAX);
     	 SendFileUploadLengthErrMsg(cl);
     	return;
 	}
